@@ -4,7 +4,9 @@ EXTENDS Generate
 CONSTANT MaxFiles
 
 F(dir, name, c, m) == [dir |-> dir, name |-> name, c |-> c, m |-> m]
-AllFlags == [keep : BOOLEAN, lazy : BOOLEAN, ver : BOOLEAN]
+AllFlags  == [keep : BOOLEAN, lazy : BOOLEAN, ver : BOOLEAN, root : {"d"}]
+\* the root directory itself has a name the skip rule knows (only explored for TreesRoot)
+RootFlags == [keep : BOOLEAN, lazy : BOOLEAN, ver : BOOLEAN, root : {"d", "_x", "vendor", ".x"}]
 
 \* every tree with at most MaxFiles files that picks at most one option per path
 RECURSIVE Pick(_, _)
@@ -40,7 +42,7 @@ Forest == UNION { { F(p, "a.templ", "good", 1), F(p, "a_templ.go", "junk", 0), F
 PerDir == { { F(p, "a.templ", "good", 1), F(p, "b_templ.go", "junk", 2), F(R, "b.templ", "unparsable", 1) } : p \in DirPaths }
 \* near misses of the skip rule (Generate.tla: AllDirNames): none of them is skipped, at depth 1, below a plain and
 \* below a skipped parent (where they stay skipped), above a plain child; skipped names below a near-miss parent
-NearMiss == AllDirNames \ DirNames
+NearMiss == (AllDirNames \ DirNames) \ TemplPathNames
 NearPaths == { <<a>> : a \in NearMiss } \cup { <<"d", a>> : a \in NearMiss } \cup { <<"vendor", a>> : a \in NearMiss }
              \cup { <<a, "d">> : a \in NearMiss } \cup { <<"multivendor", b>> : b \in DirNames \ {"d"} }
 PerDirNear == { { F(p, "a.templ", "good", 1), F(p, "b_templ.go", "junk", 2), F(R, "b.templ", "unparsable", 1) } : p \in NearPaths }
@@ -72,6 +74,31 @@ OptsFour == <<
     { F(<<"d">>, "b_templ.go", "junk", 2) },
     { F(R, "o.go", "src", 1) } >>
 TreesFour == { t \in PickB(OptsFour, Len(OptsFour)) : Cardinality(t) = 4 }
+\* path shapes with ".templ" elsewhere than as the final extension (Generate.tla: TemplPathNames, a.templ.templ, v.templ):
+\* every template must get its own _templ.go next to it, whatever the path looks like; a directory is not a template
+TreesPath == { { F(<<"v.templates">>, "a.templ", "good", 1), F(<<"v.templates">>, "b.templ", "good", 1), F(R, "v.templ", "good", 1), F(<<"d">>, "a.templ", "good", 1) },
+               { F(<<"v.templates">>, "a.templ", "good", 1), F(R, "v_templ.go", "junk", 2) },
+               { F(<<"v.templates", "d">>, "a.templ", "good", 1), F(<<"v.templates">>, "a_templ.go", "junk", 0) },
+               { F(<<"d", "v.templates">>, "a.templ", "good", 1), F(<<"d">>, "v.templ", "unparsable", 1), F(<<"d">>, "v_templ.go", "junk", 2) },
+               { F(R, "a.templ", "good", 1), F(R, "a.templ.templ", "good", 1) },
+               { F(R, "a.templ.templ", "good", 1), F(R, "a_templ.go", "junk", 2) },
+               { F(<<"d">>, "a.templ.templ", "badgo", 1), F(<<"d">>, "a.templ_templ.go", "junk", 0), F(<<"d">>, "a.templ", "good", 1) },
+               \* a DIRECTORY whose name ends in .templ (matches the watch pattern), alone, with a *_templ.go of that name next to it
+               { F(<<"d", "p.templ">>, "a.templ", "good", 1) },
+               { F(<<"p.templ">>, "a.templ", "good", 1), F(R, "p_templ.go", "junk", 2) },
+               { F(<<"p.templ">>, "b.templ", "unparsable", 1), F(<<"p.templ">>, "n.txt", "text", 1), F(R, "a.templ", "good", 1) },
+               { F(<<"_x", "p.templ">>, "a.templ", "good", 1), F(R, "a.templ", "good", 1) },
+               \* an orphaned b_templ.go next to a DIRECTORY b.templ
+               { F(<<"b.templ">>, "n.txt", "text", 1), F(R, "b_templ.go", "junk", 2) },
+               { F(<<"d", "b.templ">>, "a.templ", "good", 1), F(<<"d">>, "b_templ.go", "junk", 0) } }
+\* trees explored below a root whose own name the skip rule knows
+TreesRoot == { { F(R, "a.templ", "good", 1), F(R, "b_templ.go", "junk", 2), F(<<"d">>, "a.templ", "good", 1) },
+               { F(R, "a.templ", "unparsable", 1), F(<<"_x">>, "a.templ", "good", 1) } }
+TreesPathRoot == TreesPath \cup TreesRoot
+\* one small tree per negative configuration
+TreesNegTarget == { { F(<<"v.templates">>, "a.templ", "good", 1), F(R, "v.templ", "good", 1) }, { F(R, "a.templ", "good", 1), F(R, "a.templ.templ", "good", 1) } }
+TreesNegWalk   == { { F(<<"d", "p.templ">>, "a.templ", "good", 1) } }
+TreesNegOrphan == { { F(<<"b.templ">>, "n.txt", "text", 1), F(R, "b_templ.go", "junk", 2) } }
 \* emission
-TreesGen == TreesProto \cup TreesSkip \cup TreesForest \cup TreesFocus
+TreesGen == TreesPath \cup TreesRoot \cup TreesProto \cup TreesSkip \cup TreesForest \cup TreesFocus
 =============================================================================
